@@ -467,7 +467,8 @@ mod exec {
                     _ => false,
                 }
             }
-            if !s.chars().all(nice_char) {
+            // an empty argument must be shown as '', or it would vanish from the command line
+            if s.is_empty() || !s.chars().all(nice_char) {
                 Cow::Owned(format!("'{}'", s.replace("'", r#"'\''"#)))
             } else {
                 Cow::Borrowed(s)
